@@ -874,6 +874,7 @@ func (e *Engine) installExternals() {
 	x["os.RemoveAll"] = func(fr *frame, a []Value) Value { return Iface{} }
 
 	// ---- runtime
+	x["runtime.Goexit"] = func(fr *frame, a []Value) Value { panic(goexitSignal{}) }
 	x["runtime.Gosched"] = func(fr *frame, a []Value) Value { e.sleepYield(fr.g, "Gosched"); return nil }
 	x["runtime.GC"] = func(fr *frame, a []Value) Value { return nil }
 	x["runtime.NumGoroutine"] = func(fr *frame, a []Value) Value { return int64(len(e.gors)) }
